@@ -39,6 +39,10 @@ pub fn run_c08<A: Cx>(d: &mut Drv<A>, scale: usize, all: bool) {
                 for (a, b) in [(o, o + k), (o, o + k - 1), (o, o + k + 1), (o, o), (o + 1, o + 1 + k)] {
                     d.emit(json!({"op": "kfrom", "kd": 0, "src": sl(0, a, b), "k": k, "st": st, "via": "slice"}));
                 }
+                // the unchecked constructor, where its precondition (exactly K symbols) holds
+                d.emit(json!({"op": "kfrom", "kd": 2, "src": sl(0, o, o + k), "k": k, "st": st, "via": "unchecked"}));
+                d.emit(json!({"op": "kfrom", "kd": 2, "src": sl(0, o + 1, o + 1 + k), "k": k, "st": st, "via": "unchecked"}));
+                d.emit(json!({"op": "kobs", "ks": 2, "via": "view"}));
                 // lengths that alias K modulo a power of two are wrong lengths too
                 let longer = d.rand_syms(k + 1030);
                 d.emit(json!({"op": "fromsyms", "dst": 3, "c": A::NAME, "via": "iter", "syms": longer}));
@@ -250,6 +254,9 @@ pub fn run_c10<A: Cx>(d: &mut Drv<A>, scale: usize, all: bool) {
                     d.emit(json!({"op": "kfrom", "kd": 3, "src": whole(3), "k": k, "st": st, "via": "slice"}));
                     d.emit(json!({"op": "cmp", "x": {"kind": "kmer", "r": 2}, "y": {"kind": "kmer", "r": 3}}));
                     d.emit(json!({"op": "cmp", "x": {"kind": "seq", "src": whole(2)}, "y": {"kind": "seq", "src": whole(3)}}));
+                    // a value ordered against itself
+                    d.emit(json!({"op": "cmp", "x": {"kind": "kmer", "r": 2}, "y": {"kind": "kmer", "r": 2}}));
+                    d.emit(json!({"op": "cmp", "x": {"kind": "seq", "src": whole(3)}, "y": {"kind": "seq", "src": whole(3)}}));
                 }
                 d.emit(json!({"op": "fromsyms", "dst": 0, "c": A::NAME, "via": "iter", "syms": x}));
                 d.emit(json!({"op": "kfrom", "kd": 0, "src": whole(0), "k": k, "st": st, "via": "slice"}));
